@@ -1,0 +1,45 @@
+/*
+Verification hooks. This header is only included when RANDOMX_VERIF is defined.
+With all callbacks null, iterLimit == 0 and programOverride == nullptr the library
+computes exactly what the unhooked build computes.
+*/
+
+#pragma once
+
+#include <cstdint>
+
+namespace randomx_verif {
+
+	//defined by the verification harness; befriended by the VM and compiler classes
+	struct Access;
+
+	struct IterInfo {
+		unsigned ic;            //iteration counter
+		uint32_t spAddr0;
+		uint32_t spAddr1;
+		void* nreg;             //randomx::NativeRegisterFile*
+		void* mem;              //randomx::MemoryRegisters*
+		uint8_t* scratchpad;
+		void* config;           //randomx::ProgramConfiguration*
+		uint64_t datasetOffset;
+	};
+
+	struct Hooks {
+		//after each interpreted instruction (ibc is a randomx::InstructionByteCode*)
+		void(*afterInstr)(void* ctx, const void* ibc, int pcBefore, int pcAfter);
+		//after the registers were loaded from the scratchpad, before the program body
+		void(*iterBegin)(void* ctx, const IterInfo& info);
+		//after the scratchpad stores of an iteration
+		void(*iterEnd)(void* ctx, const IterInfo& info);
+		void* ctx;
+		//if non-zero, number of loop iterations to execute instead of RANDOMX_PROGRAM_ITERATIONS
+		unsigned iterLimit;
+		//if non-null, sizeof(randomx::Program) bytes to use instead of the generated program
+		const void* programOverride;
+	};
+
+	inline Hooks& hooks() {
+		static thread_local Hooks h = Hooks();
+		return h;
+	}
+}
